@@ -213,11 +213,18 @@ pub fn run_scheduled(fam: &Fam, cfg: &PCfg) -> PRun {
     let change_points: Vec<usize> = (0..3).map(|_| rng.below(60) as usize).collect();
     let choices = cfg.choices.clone();
     let mode = cfg.policy % 3;
+    let delay_pub = DELAY_PUB.load(AO::SeqCst) == 1 && cfg.choices.is_none() && (cfg.policy >> 3) % 2 == 0;
     let mut made: Vec<usize> = vec![];
     {
         let made_ref = &mut made;
-        sched.run(|cands, step, _labels| {
+        sched.run(|cands, step, labels| {
             let pick = if let Some(ch) = &choices { if step < ch.len() { cands.iter().position(|c| *c == ch[step]).unwrap_or(0) } else { 0 } }
+            // "late publishers": a worker that has a value to publish (waiting at `update_best`) is held back as long as another
+            // worker can move - the window in which an abort records its bound while a found value is still unpublished
+            else if delay_pub {
+                let others: Vec<usize> = (0..cands.len()).filter(|j| labels[*j].1 != "update_best").collect();
+                if others.is_empty() || rng.chance(1, 12) { rng.below(cands.len() as u64) as usize } else { others[rng.below(others.len() as u64) as usize] }
+            }
             else if mode == 0 { rng.below(cands.len() as u64) as usize }
             else {
                 if change_points.contains(&step) { let k = rng.below(prio.len() as u64) as usize; prio[k] = rng.next() >> 8; }
@@ -270,6 +277,7 @@ pub fn run_par(a: &Args) {
     // is pushed again and again with other bounds and path lengths (where the heap order of NoDupFringe matters for the
     // parallel solver's "top bound <= incumbent => drop the fringe")
     let focus_dedup = a.extra.iter().any(|x| x == "--focus-dedup");
+    if a.extra.iter().any(|x| x == "--delay-publishers") { DELAY_PUB.store(1, AO::SeqCst); }
     let mut rng = Rng::new(a.seed);
     let ninst = if focus_dedup { if a.thorough { 24000 } else { 3000 } } else if a.thorough { 12000 } else { 1000 };
     let mut bad = 0;
@@ -338,6 +346,8 @@ pub fn run_par(a: &Args) {
 /// reported as the case `hang` and the process ends (its blocked threads cannot be recovered)
 static STRESS_CUR: Mutex<Option<(std::time::Instant, String, String)>> = Mutex::new(None);
 const HANG_MS: u128 = 60_000;
+/// `--delay-publishers`: half of the scheduled runs hold back the workers waiting at `update_best`
+pub static DELAY_PUB: AtomicUsize = AtomicUsize::new(0);
 pub fn run_parstress(a: &Args) {
     let out = Arc::new(Mutex::new(Some(Out::new(&a.out, "parstress"))));
     {
